@@ -860,6 +860,9 @@ func sinkOf(ci ssa.CallInstruction) *Sink {
 	if f == nil {
 		return nil
 	}
+	if wi, di, ok := writeWrapper(f); ok && wi < len(cc.Args) && di < len(cc.Args) {
+		return &Sink{Call: ci, Writer: cc.Args[wi], Data: cc.Args[di : di+1], Kind: "write"}
+	}
 	name := f.String()
 	switch name {
 	case "(*bytes.Buffer).Write", "(*bytes.Buffer).WriteString", "(*bytes.Buffer).WriteByte", "(*bytes.Buffer).WriteRune",
@@ -1070,4 +1073,63 @@ func (a *FnA) ways(b *ssa.BasicBlock, depth int, onPath map[*ssa.BasicBlock]bool
 		return []Facts{f}
 	}
 	return out
+}
+
+// writeWrapper recognises a module-local helper whose whole effect is one write of one of its
+// parameters to its writer parameter, returning that write's error (e.g.
+// `func put(w io.Writer, s string) error { _, err := w.Write([]byte(s)); return err }`).
+// A call of it is then treated as the write itself.
+var wrapperCache = map[*ssa.Function][3]int{}
+
+func writeWrapper(f *ssa.Function) (writerIdx, dataIdx int, ok bool) {
+	if f == nil || f.Blocks == nil || f.Pkg == nil || !strings.HasPrefix(f.Pkg.Pkg.Path(), modulePath) {
+		return 0, 0, false
+	}
+	if r, seen := wrapperCache[f]; seen {
+		return r[0], r[1], r[2] == 1
+	}
+	wrapperCache[f] = [3]int{0, 0, 0}
+	if len(f.Blocks) > 4 || len(f.AnonFuncs) > 0 {
+		return 0, 0, false
+	}
+	var sinks []*Sink
+	for _, b := range f.Blocks {
+		for _, in := range b.Instrs {
+			switch x := in.(type) {
+			case *ssa.Store, *ssa.MapUpdate, *ssa.Go, *ssa.Defer, *ssa.Panic, *ssa.Send:
+				return 0, 0, false
+			case ssa.CallInstruction:
+				if _, isB := x.Common().Value.(*ssa.Builtin); isB {
+					continue
+				}
+				s := sinkOf(x)
+				if s == nil {
+					return 0, 0, false
+				}
+				sinks = append(sinks, s)
+			}
+		}
+	}
+	if len(sinks) != 1 || sinks[0].Kind != "write" {
+		return 0, 0, false
+	}
+	wi, di := -1, -1
+	for i, p := range f.Params {
+		if stripConv(sinks[0].Writer) == ssa.Value(p) {
+			wi = i
+		}
+		if len(sinks[0].Data) == 1 && stripConv(sinks[0].Data[0]) == ssa.Value(p) {
+			di = i
+		}
+	}
+	if wi < 0 || di < 0 {
+		return 0, 0, false
+	}
+	// every return carries the write's error (or nil only after testing it)
+	res := f.Signature.Results()
+	if res.Len() == 0 || res.Len() > 2 {
+		return 0, 0, false
+	}
+	wrapperCache[f] = [3]int{wi, di, 1}
+	return wi, di, true
 }
